@@ -606,6 +606,58 @@ def run(chk):
             rng = N.norm(Ts.operand(zt["args"][0], fe[0], "t"))
             last = has(hdr, is_pop) and no_more and has(rng, is_pop) and has(rng, lambda z: is_call(z, "PacketHeader::len"))
             order = order or (eb in after_z)
+    # ... and the zeroed range starts right after what this packet writes: header length of *this* packet's header kind (7 for
+    # an initialisation packet, 5 for a continuation packet) + length of its data
+    start_ok, start_w = False, "zeroed range not found"
+    if fe:
+        zt = [t for bb, t in snd.calls() if bb == fe[0]][0]
+        rcv = N.norm(Ts.operand(zt["args"][0], fe[0], "t"))
+        st_t = None
+        for x in sub(rcv):
+            if isinstance(x, tuple) and len(x) == 4 and x[0] == "agg" and str(x[1]).endswith("RangeFrom"):
+                st_t = dict(x[3]).get("start")
+                break
+            if is_call(x, "Iterator::skip") and len(x[2]) == 2:
+                st_t = x[2][1]
+                break
+        if isinstance(st_t, tuple) and len(st_t) == 3 and st_t[0] == "field" and st_t[2] == "0":
+            st_t = st_t[1]
+        start_w = "zeroing starts at %s" % (flow.term_str(st_t)[:160] if st_t else "?")
+        if isinstance(st_t, tuple) and len(st_t) == 4 and st_t[0] == "binop" and st_t[1].startswith("Add"):
+            ops = [st_t[2], st_t[3]]
+            dl = [o for o in ops if has(o, lambda z: isinstance(z, tuple) and len(z) == 4 and z[0] == "call" and z[1].endswith("::len") and not names.is_(z[1], "PacketHeader::len"))]
+            hl = [o for o in ops if o not in dl]
+            pha = p.adts.get(H + "PacketHeader")
+            vidx = {v["name"]: str(i) for i, v in enumerate(pha["variants"])} if pha else {}
+            want = {vidx.get("Initialization"): 7, vidx.get("Continuation"): 5}
+
+            def kind_table(h):
+                """{variant index: header length} of a header-length term: a private helper matched on the header kind, or the
+                same selection written in place"""
+                if isinstance(h, tuple) and len(h) == 4 and h[0] == "call" and h[1] in p.bodies and len(h[2]) == 1:
+                    tab = {}
+                    for o in S.local_outcomes(p.bodies[h[1]]):
+                        v = o.value
+                        k = [l[1] for t, l, f_, w_ in o.conds if flow.is_discr(t, ("param", 1)) and l[0] == "in" and len(l) == 2]
+                        if len(k) == 1 and isinstance(v, tuple) and v[0] == "const" and isinstance(v[1], int):
+                            tab[k[0]] = v[1]
+                        else:
+                            return None
+                    return tab
+                if isinstance(h, tuple) and h and h[0] == "gamma" and flow.is_discr(h[1]):
+                    tab = {}
+                    for l, v in h[2]:
+                        if l[0] == "in" and len(l) == 2 and isinstance(v, tuple) and v[0] == "const" and isinstance(v[1], int):
+                            tab[l[1]] = v[1]
+                        else:
+                            return None
+                    return tab
+                return None
+            if len(dl) == 1 and len(hl) == 1:
+                kt = kind_table(hl[0])
+                start_ok = kt is not None and kt == want
+                start_w += " — header length by packet kind: %s (CTAPHID: initialisation 7, continuation 5)" % (kt if kt is not None else "not a function of the header kind")
+    chk.ob("R5 full packets", "R5|send|zeroing-starts-after-this-packets-header-and-data", start_ok, where(snd, fe[0]) if fe else where(snd), start_w)
     chk.ob("R5 full packets", "R5|send|tail-zeroed-on-last-packet-before-encode", zero and order and last, where(snd, fe[0]) if fe else where(snd), "zeroing of the unused tail: %s, applied to the last packet only (i == last, or the popped last element): %s, before it is encoded: %s" % (zero, last, order))
     snd = snd_raw
 
